@@ -157,12 +157,12 @@ impl Scenario for C09 {
         "fault_enumeration"
     }
     fn rule(&self) -> String {
-        "Enumerated: (a) read faults — for every bundled file, every byte offset 0..=len (all offsets for files <= 8 KiB; dense edges + stride for the four large files) x 5 error kinds x {SimReader direct, SimReader under std BufReader} with one-shot/sticky, chunk size, decoder type and an Interrupted placement derived from the offset; (b) write faults — for every map decoded from the corpus, every output offset x {hard error, Ok(0)} x {direct, by-value std BufWriter}, plus flush failure, short-write schedules and Interrupted-only sinks per file; (c) five real-OS probes (/dev/full, missing directory, directory as file, missing file, successful temp file); then seeded combinations (generated files, random transports before the fault, Interrupted-only plans). distinct_nontrivial = distinct plan hashes that plan at least one fault or a transient interruption.".into()
+        "Enumerated: (a) read faults — for every bundled file, every byte offset 0..=len (all offsets for files <= 8 KiB; dense edges + stride for the four large files) x the property's 5 error kinds (+ one of 15 further kinds rotating with the offset) x {SimReader direct, SimReader under std BufReader} with one-shot/sticky, chunk size, decoder type and an Interrupted placement derived from the offset; (b) write faults — for every map decoded from the corpus, every output offset x {hard error, Ok(0)} x {direct, by-value std BufWriter}, plus flush failure of every kind incl. Interrupted (sticky or first flush only), short-write schedules and Interrupted-only sinks per file; (c) five real-OS probes (/dev/full, missing directory, directory as file, missing file, successful temp file); then seeded combinations (generated files, random transports before the fault, Interrupted-only plans). distinct_nontrivial = distinct plan hashes that plan at least one fault or a transient interruption.".into()
     }
     fn assumptions(&self) -> Vec<String> {
         vec![
             "the oracle checks the ErrorKind of the returned error (identity of the payload is only a statistic), so a kind-preserving wrapper is accepted".into(),
-            "Interrupted is never injected on flush (outside the property's mechanism list)".into(),
+            "Interrupted reported by flush itself: the statement does not say whether flush is retried, so both 'the error is returned' and 'a later flush succeeded' are accepted; Ok while the last flush the sink saw had failed is a swallowed error".into(),
             "Interrupted bursts are finite (<= 3 consecutive), otherwise std's retry loops livelock legitimately".into(),
             "large files: offsets are sampled (dense at both ends + stride), not exhaustive".into(),
         ]
